@@ -346,6 +346,47 @@ pub fn run(rep: &mut Report, thorough: bool) {
                 eth(&[0xff; 6], &MAC_CLI, ET_ARP, &body)
             });
         }
+        // ARP / ND frames that fail the destination-MAC filter, with every combination of an
+        // authorised or other MAC address in the fields INSIDE the message (ARP sender / target
+        // hardware address, ND source link-layer option) and as Ethernet source: what a message says
+        // about link-layer addresses never makes a frame one for the responder
+        {
+            let mut alpha: Vec<Mac> = vec![cfg.mac, [0xff; 6], [0x33, 0x33, 0, 0, 0, 1], [0x01, 0, 0x5e, 0, 0, 1], [0; 6], MAC_CLI];
+            if let Ip::V4(b) = srv4() {
+                alpha.push([0x01, 0x00, 0x5e, b[1] & 0x7f, b[2], b[3]]);
+            }
+            if let Ip::V6(b) = srv6() {
+                alpha.push([0x33, 0x33, 0xff, b[13], b[14], b[15]]);
+                alpha.push([0x33, 0x33, b[12], b[13], b[14], b[15]]);
+            }
+            let mut strangers: Vec<Mac> = vec![[0x02, 0x99, 0x99, 0x99, 0x99, 0x99], [0x02, 0xaa, 0xbb, 0xcc, 0xdd, 0xee]];
+            let mut flip = cfg.mac;
+            flip[5] ^= 1;
+            strangers.push(flip);
+            let na = alpha.len() as u64;
+            let dims = [strangers.len() as u64, na, na, na, 3];
+            let (c4, s4) = match (cli4(), srv4()) {
+                (Ip::V4(c), Ip::V4(s)) => (c, s),
+                _ => unreachable!(),
+            };
+            sweep_frames(rep, cfg, &format!("message-mac-fields-{}", tag), "ARP requests / replies and neighbour solicitations sent to 3 foreign destination MACs x Ethernet source x sender hardware address / source link-layer option x target hardware address over 9 MAC addresses (own, broadcast, all-nodes, IPv4 / IPv6 groups derived from the handled addresses, zero, the client's)", product(&dims), |i| {
+                let d = unrank(i, &dims);
+                let dmac = strangers[d[0] as usize];
+                let (smac, sha, tha) = (alpha[d[1] as usize], alpha[d[2] as usize], alpha[d[3] as usize]);
+                if d[4] < 2 {
+                    let mut a = Arp::request(sha, c4, s4);
+                    a.tha = tha;
+                    a.op = 1 + d[4] as u16;
+                    eth(&dmac, &smac, ET_ARP, &a.bytes())
+                } else {
+                    let mut opt = slla(&sha);
+                    // (a second option: target link-layer address)
+                    opt.extend_from_slice(&[2, 1]);
+                    opt.extend_from_slice(&tha);
+                    eth(&dmac, &smac, ET_IP6, &nd_ns(&cli6(), &srv6(), &srv6(), &opt, 0))
+                }
+            });
+        }
         // frames that fail ONE filter (foreign destination MAC, denied source, foreign destination
         // address): no other byte of the frame may let them through - every byte position behind
         // the Ethernet addresses x all 256 values (the source port's high byte, a payload byte that
